@@ -102,6 +102,15 @@ def fmt(v):
     return v if isinstance(v, str) else repr(v)
 
 
+def positional_geometry(case):
+    """the leading positional arguments of the shape, when the case gives all of them as plain numbers"""
+    kind, a = case["kind"], case["attrs"]
+    keys = {"rect": ["x", "y", "width", "height", "rx", "ry"], "circle": ["cx", "cy", "r", "r"], "ellipse": ["cx", "cy", "rx", "ry"], "line": ["x1", "y1", "x2", "y2"]}.get(kind)
+    if keys is None or any(k not in a or isinstance(a[k], str) for k in keys):
+        return None
+    return [a[k] for k in keys]
+
+
 def build(case):
     se = lib.L()
     kind, a, route = case["kind"], case["attrs"], case["route"]
@@ -377,6 +386,25 @@ def check(case):
             pa, pb = lib.xy(h.point(t)), lib.xy(ph.point(t))
             if pa is None or pb is None or not core.pclose(pa, pb, 1e-9 * SA):
                 return o.violation("history:%s:point" % hist, "%s %r: point() was asked, then %r was realised in place: shape.point(%r) = %r, Path(shape).point(%r) = %r" % (kind, case["attrs"], A, t, pa, t, pb))
+    # 7. the documented positional form  shape(geometry..., matrix): two shapes are given one Matrix object, one of them
+    #    is changed in place; the other still is the shape under that matrix, and the caller's matrix still is M
+    pos = positional_geometry(case)
+    if pos is not None:
+        o.label("positional-matrix")
+        cls = getattr(se, {"rect": "Rect", "circle": "Circle", "ellipse": "Ellipse", "line": "SimpleLine"}[kind])
+        mobj = lib.mk_matrix(A)
+        coeffs = lambda m: (m.a, m.b, m.c, m.d, m.e, m.f)
+        before = coeffs(mobj)
+        one, two = cls(*(pos + [mobj])), cls(*(pos + [mobj]))
+        fresh = cls(*(pos + [lib.mk_matrix(A)]))
+        one.reify()
+        one *= lib.mk_matrix([2.0, 0.0, 0.0, 0.5, 1.0, -3.0])
+        if coeffs(mobj) != before:
+            return o.violation("positional-matrix:caller's-matrix-modified", "%s(%r, M) then reify() and *= N: the caller's M = %r is now %r" % (kind, pos, before, coeffs(mobj)))
+        from . import c17
+        a_, b_ = c17.snapshot(abs(se.Path(two))), c17.snapshot(abs(se.Path(fresh)))
+        if a_ != b_:
+            return o.violation("positional-matrix:shared", "%s(%r, M): after another shape built with the same Matrix object was changed in place it reads %r, a fresh one %r" % (kind, pos, a_[:2], b_[:2]))
     if known is not None:
         return o.known("KF-ROUNDSHAPE-TRANSFORMED", known.detail)
     auto = case["cells"] and (("omitted" in case["cells"]) != (case["cells"][0] == case["cells"][1] == "omitted") or "over" in case["cells"])
